@@ -151,6 +151,7 @@ def generate(rng, tier):
         "second_op": rng.choice([None, None, "sum", "mean"]),
         # an earlier call on the same objects with other contents; the caller refills the buffers in place
         "prior": rng.random() < 0.2,
+        "xdtype": "f8",  # (single-precision coordinates: tried and withdrawn -- the front-end transforms and compares them in single precision, and what "inside the range" means within float32 rounding of an edge is not something the statement settles)
     }
     return case
 
@@ -188,7 +189,8 @@ def call_frontend(case, sim_factory, reuse=None, call_op="__case__"):
         return plot, seam.calls
 
     prior = bool(case.get("prior")) and case["n"] > 0
-    xv = np.array(case["x"]["pts"], dtype=float)
+    # coordinates may be stored in single precision (the values are then the rounded ones)
+    xv = np.array(case["x"]["pts"], dtype=DT[case.get("xdtype", "f8")])
     yv = np.array(case["y"]["pts"], dtype=float)
     x = osyris.Array(values=xv[::-1].copy() if prior else xv, unit=case["xunit"], name="xq")
     y = osyris.Array(values=yv.copy() if prior else yv, unit="", name="yq")
@@ -269,7 +271,7 @@ def reference(case, grid):
     res = case["res"]
     out = []
     with np.errstate(all="ignore"):
-        tx = np.array(case["x"]["pts"], dtype=float)
+        tx = np.array(case["x"]["pts"], dtype=DT[case.get("xdtype", "f8")]).astype(float)
         ty = np.array(case["y"]["pts"], dtype=float)
         if case["x"]["log"]:
             tx = np.log10(tx)
@@ -472,6 +474,13 @@ def execute(case, stats):
     wl = core.digest({k: case[k] for k in ("n", "res", "x", "y", "layers", "call_op", "loglog")})[:16]
     res["signature"] = wl + ":" + sig
 
+    if case.get("xdtype", "f8") == "f4":
+        # single-precision coordinates: the front-end may transform and compare them in single precision; a point within a
+        # few float32 ulps of a bin edge may fall on either side
+        bw_ = (grid["xmax"] - grid["xmin"]) / max(1, grid["nx"])
+        if np.isfinite(bw_) and bw_ > 0:
+            grid["xtol"] = max(grid.get("xtol", EDGE_TOL), 32 * float(np.finfo(np.float32).eps) * max(1.0, abs(grid["xmin"]), abs(grid["xmax"])) / bw_)
+        stats.inc("probe.single_precision_coordinates")
     opts, tx, ty = reference(case, grid)
     # ---- grid clauses
     for name, ax, t in (("x", case["x"], tx), ("y", case["y"], ty)):
@@ -482,6 +491,8 @@ def execute(case, stats):
         # a requested limit that leaves no room for the automatic other side (all data at or beyond it)
         # is a degenerate request: the front-end widens it; not judged
         tol_d = 1e-12 * max(1.0, abs(ulo or 0.0), abs(uhi or 0.0))  # np.log10 and math.log10 may differ in the last bit
+        if name == "x" and case.get("xdtype", "f8") == "f4":
+            tol_d = 1e-6 * max(1.0, abs(ulo or 0.0), abs(uhi or 0.0))  # single-precision data: a range of a few float32 ulps is degenerate
         degenerate = ((ulo is not None and uhi is None and (len(fin) == 0 or fin.max() <= ulo + tol_d)) or
                       (uhi is not None and ulo is None and (len(fin) == 0 or fin.min() >= uhi - tol_d)))
         # (all data equal with two automatic limits is *not* degenerate for the oracle: the front-end has to widen the
@@ -791,6 +802,8 @@ def reductions(case, viol):
         yield dict(case, second_op=None)
     if case.get("prior"):
         yield dict(case, prior=False)
+    if case.get("xdtype", "f8") != "f8":
+        yield dict(case, xdtype="f8")
     # 4. non-finite entries -> finite
     for a in ("x", "y"):
         for i, v in enumerate(case[a]["pts"]):
